@@ -469,7 +469,15 @@ class Run:
     async def op(self, op, path, owner, mscope=None):  # noqa: C901, PLR0912
         k = op["k"]
         if k in ("scope", "updated"):
-            await self.block(op, path, owner, mscope)
+            if op.get("in_handler"):
+                # the block is entered while the surrounding code is HANDLING an exception (a clean-up / compensation scope
+                # inside an `except` clause): what is being handled out there is none of the block's business
+                try:
+                    raise EXC[op["in_handler"]](("handled outside", path))
+                except BaseException:  # noqa: BLE001 - the handler is the point
+                    await self.block(op, path, owner, mscope)
+            else:
+                await self.block(op, path, owner, mscope)
         elif k == "probe":
             res = [(n, d, self.lookup(n, d)[:2]) for n, d in op.get("lookups", [])]
             raw = [self.lookup(n, d) for n, d in []]
@@ -487,6 +495,14 @@ class Run:
             import random
 
             random.seed(op["n"])
+        elif k == "absorb_cancel":
+            # the task absorbs a cancellation request here (clean-up code in `except CancelledError:` / `finally:` goes on
+            # working): Task.cancelling() stays > 0 from now on, which is not a pending cancellation
+            asyncio.current_task().cancel()
+            try:
+                await asyncio.sleep(0)
+            except asyncio.CancelledError:
+                pass
         elif k == "sleep":
             await asyncio.sleep(op["t"])
         elif k == "wait":
@@ -739,7 +755,18 @@ class Double:
             # a resource that starts its own background task while it is being set up (a connection's reader, a heartbeat):
             # ctx.spawn here lands in the task group of the scope that is being entered
             self.run.spawn({"via": "ctx", "body": [{"k": "wait", "gate": self.spec["enter"]["spawn"]}]}, (*self.path, "dsp", self.j), self.path)
-        await self._behave("enter", self.spec["enter"])
+        en = self.spec["enter"]
+        if en.get("probe"):
+            self.run.ev("d_enter_probe", self.path, j=self.j, when="start", state=self.run.fingerprint()["state"])
+        if en.get("own_block") is not None:
+            # set-up code that works inside a block of its own (ctx.updated / a helper that opens one) and suspends there: that
+            # block is this disposable's private business - its siblings, entering at the same time, do not see it
+            with ctx.updated(make_state(en["own_block"])):
+                await self._behave("enter", en)
+        else:
+            await self._behave("enter", en)
+        if en.get("probe"):
+            self.run.ev("d_enter_probe", self.path, j=self.j, when="end", state=self.run.fingerprint()["state"])
         y = self.spec.get("yields")
         if y is None:
             res = None
@@ -759,6 +786,15 @@ class Double:
         if self.spec["exit"].get("release") is not None:
             # closing this resource is what lets tasks that use it finish (a queue being closed, a connection shut down)
             self.run.release(self.spec["exit"]["release"])
+        if self.spec["exit"].get("spawn_task") is not None:
+            # clean-up code that spawns (a final flush, a background close): while the block is being left the task still lands in
+            # the group of the scope that is being left - it is ended with the block like any other task of that scope
+            try:
+                self.run.spawn({"via": "ctx", "body": [{"k": "sleep", "t": self.spec["exit"]["spawn_task"]}]}, (*self.path, "dsx", self.j), self.path)
+            except RuntimeError:
+                # asyncio refuses new tasks in a group that is already shutting down (a task of the scope failed): the clean-up
+                # goes without its helper task then - not a cleanup error of this disposable
+                self.run.ev("d_exit_spawn_refused", self.path, j=self.j)
         await self._behave("exit", self.spec["exit"])
         self.run.ev("d_exit_done", self.path, j=self.j)
         # some context managers report "handled"/"closed" by returning True; scopes document no suppression
